@@ -7,3 +7,10 @@ import "rare/pkg/slicepool"
 func VerifResetPools() {
 	subContextPool = slicepool.NewObjectPool[subContext](5)
 }
+
+// VerifResetPoolsN is VerifResetPools with a pool of n objects: with n = 1 or
+// 0 the first concurrent Gets already meet at the "pool nearly empty"
+// boundary that a run with many workers and nested helpers reaches later.
+func VerifResetPoolsN(n int) {
+	subContextPool = slicepool.NewObjectPool[subContext](n)
+}
